@@ -275,17 +275,29 @@ theorem matchStep_go (T : Table) (rels : List RelID) :
     the model. -/
 theorem matches_eq (T : Table) (rels : List RelID) (hids : IdsLt256 T) :
     (table_Matches (ofTableL T) (rels.map ofRel)).classify = matchesK (T.matchesRels rels) := by
-  unfold table_Matches Table.matchesRels
+  -- The guard of the source (`len(relations) == 0 || !t.HasRelations()`, in whichever order the two
+  -- operands are written) is never spelled here: the model's guard is decided first, the source's `if`
+  -- is then discharged by `if_pos`/`if_neg` (its condition found by unification) and `simp` on the atoms.
   have hl : (ofTableL T).relationIDs.length = T.relIDs.length := by simp [ofTableL]
-  have hcond : ((rels.map ofRel).length == 0 || !decide ((ofTableL T).relationIDs.length > 0)) =
-      (rels.isEmpty || !T.hasRelations) := by
-    rw [hl]
-    cases rels <;> cases h : T.relIDs <;> simp [Table.hasRelations, h]
-  simp only [hcond]
-  cases hc : (rels.isEmpty || !T.hasRelations) with
-  | true => simp [GoRes.classify, matchesK]
-  | false =>
-    simp only [Bool.false_eq_true, if_false, List.length_map]
+  by_cases hc : (rels.isEmpty || !T.hasRelations) = true
+  · have hM : T.matchesRels rels = some true := by simp only [Table.matchesRels, hc, if_true]
+    have hat : rels = [] ∨ T.relIDs = [] := by
+      cases rels <;> cases h : T.relIDs <;> simp_all [Table.hasRelations]
+    rw [hM]
+    unfold table_Matches
+    rw [if_pos (by rcases hat with h | h <;> simp [h, hl])]
+    rfl
+  · have hM : T.matchesRels rels = Table.matchesRels.go T rels := by
+      simp only [Table.matchesRels, hc, Bool.false_eq_true, if_false]
+    have hat : rels ≠ [] ∧ T.relIDs ≠ [] := by
+      cases rels <;> cases h : T.relIDs <;> simp_all [Table.hasRelations]
+    rw [hM]
+    unfold table_Matches
+    rw [if_neg (by
+      have h1 : rels.length ≠ 0 := fun h => hat.1 (List.eq_nil_of_length_eq_zero h)
+      have h2 : T.relIDs.length ≠ 0 := fun h => hat.2 (List.eq_nil_of_length_eq_zero h)
+      simp [hl, h1, h2, Nat.pos_of_ne_zero h2])]
+    simp only [List.length_map]
     rw [foldl_early (List.range rels.length) _ (fun i => matchStep T (rels.getD i default))]
     · rw [findSome?_range_getElem rels (matchStep T) _ (fun i h => by
         simp [List.getD_eq_getElem?_getD, h])]
@@ -337,6 +349,42 @@ theorem dupScan_some (ρ : Type) (cs : List Nat) (r : GoRes ρ) (h : dupScan ρ 
   split at hj
   · exact ⟨_, (Option.some.inj hj).symm⟩
   · cases hj
+
+/-- the duplicate found by the scan (the scan without the type of the result it is embedded in) -/
+def dupFind (cs : List Nat) : Option Nat :=
+  (List.range' 1 (cs.length - 1)).findSome? fun i =>
+    (List.range' 0 i).findSome? fun j =>
+      if cs.getD i 0 == cs.getD j 0 then some (cs.getD i 0) else none
+
+theorem findSome?_map_opt {α β γ : Type} (l : List α) (f : α → Option β) (g : β → γ) :
+    l.findSome? (fun x => (f x).map g) = (l.findSome? f).map g := by
+  induction l with
+  | nil => rfl
+  | cons x xs ih =>
+    rw [List.findSome?_cons, List.findSome?_cons]
+    cases f x with
+    | some b => rfl
+    | none => exact ih
+
+/-- the scan is the same in whatever result type it is embedded (in the caller: the result of
+    `getTableSlowPath`; in a helper function: the helper's own result) -/
+theorem dupScan_eq_map (ρ : Type) (cs : List Nat) : dupScan ρ cs = (dupFind cs).map (dupPanic ρ) := by
+  unfold dupScan dupFind
+  rw [← findSome?_map_opt]
+  congr 1
+  funext i
+  rw [← findSome?_map_opt]
+  congr 1
+  funext j
+  split <;> rfl
+
+theorem dupScan_dup (cs : List Nat) (h : ¬ cs.Nodup) :
+    ∃ (c : Nat), ∀ (ρ : Type), dupScan ρ cs = some (dupPanic ρ c) := by
+  cases hf : dupFind cs with
+  | none =>
+    exfalso; apply h
+    rw [← dupScan_eq_none_iff Unit, dupScan_eq_map, hf]; rfl
+  | some c => exact ⟨c, fun ρ => by rw [dupScan_eq_map, hf]; rfl⟩
 
 theorem comp_getD (rels : List RelID) (i : Nat) :
     ((rels.map ofRel).getD i default).component.id = (rels.map (·.comp)).getD i 0 := by
@@ -432,47 +480,67 @@ theorem getTableSlowPath_eq (w : World) (a : Nat) (rels : List RelID)
   have hnum : (ofArchM A).numRelations = A.numRel := rfl
   have hrt : (ofArchM A).relationTables = A.relationTables := rfl
   -- `for j := 0; j < i; j++` and `for j := range i` are the same list of positions
-  simp only [List.length_map, hnum, hrt, Nat.mod_eq_of_lt hlen, Nat.sub_zero, ← List.range_eq_range']
+  simp only [List.length_map, List.length_take, hnum, hrt, Nat.mod_eq_of_lt hlen, Nat.sub_zero,
+    ← List.range_eq_range']
   by_cases hfew : rels.length < A.numRel
   · simp [hfew, GoRes.classify, panicKind, expectK]
   · simp only [hfew, decide_false, Bool.false_eq_true, if_false]
-    -- the duplicate scan
+    -- the duplicate scan (in place, or in a helper function called here; the earlier entries
+    -- visited by position `j < i` or by ranging over `relations[:i]`)
     rw [foldl_early (List.range' 1 (rels.length - 1)) _
       (fun i => (List.range i).findSome? fun j =>
         if (rels.map (·.comp)).getD i 0 == (rels.map (·.comp)).getD j 0
         then some (dupPanic _ ((rels.map (·.comp)).getD i 0)) else none)
       (by
-        intro ret i _
+        intro ret i hi
+        have hmin : min i rels.length = i := by
+          have := (List.mem_range'_1.mp hi).2
+          omega
         cases ret with
         | some r => simp
         | none =>
           simp only [Option.isSome_none, Bool.false_eq_true, if_false]
+          try simp only [hmin]
           rw [foldl_early (List.range i) _ (fun j =>
             if (rels.map (·.comp)).getD i 0 == (rels.map (·.comp)).getD j 0
             then some (dupPanic _ ((rels.map (·.comp)).getD i 0)) else none)
             (by
-              intro ret j _
+              intro ret j hj
+              have hj' : j < i := List.mem_range.mp hj
+              have htake : ∀ (l : List G_relationID), (l.take i).getD j default = l.getD j default := by
+                intro l
+                simp [List.getD_eq_getElem?_getD, List.getElem?_take, hj']
               cases ret with
               | some r => simp
-              | none => simp only [comp_getD, dupPanic, Option.isSome_none, Bool.false_eq_true, if_false])]
+              | none =>
+                -- what remains (if anything) is the order of the two sides of `==`
+                simp only [htake, comp_getD, dupPanic, Option.isSome_none, Bool.false_eq_true, if_false] <;> (
+                  generalize (rels.map (·.comp)).getD i 0 = x
+                  generalize (rels.map (·.comp)).getD j 0 = y
+                  by_cases h : x = y
+                  · subst h; simp
+                  · have h' : ¬ y = x := fun e => h e.symm
+                    simp [h, h']))]
           rw [ite_self, Option.none_or])]
-    have hscan : (List.range' 1 (rels.length - 1)).findSome? (fun i =>
+    have hscan : ∀ (ρ : Type), (List.range' 1 (rels.length - 1)).findSome? (fun i =>
         (List.range i).findSome? fun j =>
           if (rels.map (·.comp)).getD i 0 == (rels.map (·.comp)).getD j 0
-          then some (dupPanic (Option G_table_L × Bool) ((rels.map (·.comp)).getD i 0)) else none) =
-        dupScan _ (rels.map (·.comp)) := by
+          then some (dupPanic ρ ((rels.map (·.comp)).getD i 0)) else none) =
+        dupScan ρ (rels.map (·.comp)) := by
+      intro ρ
       simp [dupScan, List.range_eq_range']
     rw [hscan, Option.none_or]
-    cases hd : dupScan (Option G_table_L × Bool) (rels.map (·.comp)) with
-    | some r =>
-      obtain ⟨c, rfl⟩ := dupScan_some _ _ _ hd
-      have hnd : ¬ (rels.map (·.comp)).Nodup := by
-        intro h; rw [(dupScan_eq_none_iff _ _).mpr h] at hd; cases hd
+    by_cases hnd : (rels.map (·.comp)).Nodup
+    case neg =>
+      obtain ⟨c, hc⟩ := dupScan_dup _ hnd
       have htw : World.namedTwice [] rels = true := (World.namedTwice_nil_eq_true_iff rels).mpr hnd
+      rw [hc]
       simp [htw, dupPanic, GoRes.classify, panicKind, expectK]
-    | none =>
-      have hnd : (rels.map (·.comp)).Nodup := (dupScan_eq_none_iff _ _).mp hd
+    case pos =>
+      have hd : ∀ (ρ : Type), dupScan ρ (rels.map (·.comp)) = none :=
+        fun ρ => (dupScan_eq_none_iff ρ _).mpr hnd
       have htw : World.namedTwice [] rels = false := (World.namedTwice_nil_eq_false_iff rels).mpr hnd
+      rw [hd]
       simp only [htw, Bool.false_eq_true, if_false]
       cases rels with
       | nil =>
